@@ -108,6 +108,118 @@ def run(chk, tier):
                 chk.ok("R19.7", "CelValue::%s serialized" % n_)
             else:
                 chk.bad("R19.7", "CelValue::%s serialized" % n_, "CelValue::%s can be a folded constant / instruction operand but is not part of the serialized form" % n_, cv[0]["file"])
+    # R19.8 JSON nesting budget
+    chk.rule("R19.8", "JSON nesting budget: envelope + (parser nesting limit - 1) x (JSON levels per nested code block) + deepest constant <= 127, the deepest document serde_json reads back "
+                      "(its recursion limit is 128): a program the compiler accepts can always be read again")
+    by_path = {a["path"]: a for a in adts}
+
+    def split_generic(ty):
+        m_ = re.match(r"^([\w:]+)<(.*)>$", ty)
+        if not m_:
+            return ty, []
+        head, inner = m_.groups()
+        parts, depth_, cur = [], 0, ""
+        for ch_ in inner:
+            if ch_ == "<" or ch_ == "(":
+                depth_ += 1
+            elif ch_ == ">" or ch_ == ")":
+                depth_ -= 1
+            if ch_ == "," and depth_ == 0:
+                parts.append(cur.strip())
+                cur = ""
+            else:
+                cur += ch_
+        if cur.strip():
+            parts.append(cur.strip())
+        return head, parts
+    BC = "rscel::interp::types::bytecode::ByteCode"
+    CODEVEC = "std::vec::Vec<%s>" % BC
+
+    def walk(ty, stop_at_code, stack):
+        """(deepest JSON nesting below a value of type ty without entering another code vector, deepest nesting at which a code vector opens or None)"""
+        if ty == CODEVEC:
+            return (0, 1) if stop_at_code else (0, None)       # the '[' of the nested block
+        head, parts = split_generic(ty)
+        if head in ("std::vec::Vec", "std::collections::HashSet", "std::collections::HashMap", "std::collections::BTreeMap"):
+            sub = [walk(p_, stop_at_code, stack) for p_ in parts if not p_.startswith("std::hash") and "RandomState" not in p_]
+            leaf = 1 + max([x[0] for x in sub] or [0])
+            code = [1 + x[1] for x in sub if x[1] is not None]
+            return leaf, (max(code) if code else None)
+        if head in ("std::option::Option", "std::boxed::Box", "std::sync::Arc", "std::rc::Rc"):
+            return walk(parts[0], stop_at_code, stack) if parts else (0, None)
+        if ty.startswith("("):
+            return 1, None
+        a = by_path.get(head)
+        if a is None:
+            return 0, None            # scalars, strings, chrono values under the reviewed integer codecs (R19.5)
+        if head in stack:
+            return 0, None            # value recursion (List / Map of values): one level of source nesting each, lighter than a code block - see the text of the rule
+        stack = stack + [head]
+        leafs, codes = [0], []
+        for v in a["variants"]:
+            if skipped(v["attrs"]):
+                continue
+            fields = [f for f in v["fields"] if not skipped(f["attrs"])]
+            named = any(not f["name"].isdigit() for f in fields)
+            if a["kind"] == "Enum":
+                if not fields:
+                    continue                                  # unit variant: a string
+                own = 1                                       # {"Variant": ...}
+                if named or len(fields) > 1:
+                    own += 1                                  # struct variant object / tuple variant array
+            else:
+                own = 0 if (len(fields) == 1 and not named) else 1    # newtype struct is transparent
+            for f in fields:
+                l_, c_ = walk(f["ty"], stop_at_code, stack)
+                leafs.append(own + l_)
+                if c_ is not None:
+                    codes.append(own + c_)
+        return max(leafs), (max(codes) if codes else None)
+    try:
+        env_leaf, env_code = walk(ROOT, True, [])
+        # one element of a code vector: deepest constant (not entering a nested block), and the depth at which a nested block opens
+        el_leaf, el_code = walk(BC, True, [])
+        import mirq as _mq
+        en = F.body("rscel::compiler::compiler::CelCompiler::<'l>::enter_nested")
+        consts_ = sorted(set(c_[2] for c_ in _mq.BodyQ(en).const_compares() if isinstance(c_[2], int) and c_[2] > 1))
+        if env_code is None or el_code is None or len(consts_) != 1:
+            chk.bad("R19.8", "anchor", "could not derive the budget (envelope %s, block %s, nesting limit %s)" % (env_code, el_code, consts_), "")
+        else:
+            limit = consts_[0]
+            worst = env_code + (limit - 1) * el_code + el_leaf
+            detail = {"envelope": env_code, "levels per nested block": el_code, "deepest constant": el_leaf, "parser nesting limit": limit, "worst case": worst, "serde_json reads": 127}
+            if worst <= 127:
+                chk.ok("R19.8", "json depth budget", detail)
+            else:
+                chk.bad("R19.8", "json depth budget", "a program nested %d calls deep is accepted by the compiler and written as JSON %d levels deep (%d + %d x %d + %d), "
+                                                      "but serde_json reads at most 127: it cannot be deserialized" % (limit - 1, worst, env_code, limit - 1, el_code, el_leaf),
+                        "rscel/src/compiler/compiler.rs")
+    except RecursionError:
+        chk.bad("R19.8", "anchor", "type walk did not terminate", "")
+    # the budget counts one nested block per nesting level: no emission template puts a block inside a block of the same node
+    import ctemplates
+    db_ = ctemplates.build_db(F)
+    deep_ = []
+
+    def nest_depth(items):
+        d_ = 0
+        for it_ in items:
+            if it_.get("k") == "block":
+                d_ = max(d_, nest_depth(it_["items"]))
+            if "nested" in it_:
+                d_ = max(d_, 1 + nest_depth(it_["nested"]))
+        return d_
+    n_nested = 0
+    for root_, paths_ in db_["roots"].items():
+        for p_ in paths_:
+            nd = nest_depth(p_.get("items") or [])
+            n_nested += 1 if nd else 0
+            if nd > 1:
+                deep_.append(root_)
+    if deep_:
+        chk.bad("R19.8", "one block per nesting level", "templates of %s nest a code block inside a code block of the same node: the budget per nesting level is larger than assumed" % sorted(set(deep_)), "rscel/src/compiler/compiler.rs")
+    else:
+        chk.ok("R19.8", "one block per nesting level", {"templates with a nested block": n_nested})
     # R19.5 declared codecs: the reviewed table of every non-default codec in the closure (a new / changed codec must be reviewed:
     # a narrower range makes serialization fail, an asymmetric hand-written codec reads back a different value)
     chk.rule("R19.5", "the only non-default codecs in Program's serde closure are the reviewed ones: TimeStamp = chrono ts_milliseconds (both directions), "
